@@ -118,7 +118,7 @@ theorem window_after_pass (mss cap port : Nat) (fuel : Nat) (t : Tcb) (acc : Lis
 
 example : ∃ (t t' : Tcb) (sg : Seg), t.segStep 4 64 1 = some (t', sg) ∧ t.sndNxt < M32 ∧ t.sndUna < M32 ∧
     t.sndWnd < M32 ∧ sg.payload = [7, 8] :=
-  ⟨{ state := .established, peer := ⟨.host 1 false, 9⟩, sndNxt := 100, sndUna := 100, sndWnd := 2, rcvNxt := 5,
+  ⟨{ state := .established, peer := ⟨.host 1 false, 9⟩, sndNxt := 100, sndUna := 100, sndMax := 100, sndWnd := 2, rcvNxt := 5,
      sendBuf := [7, 8, 9] }, _, _, rfl, by decide, by decide, by decide, rfl⟩
 
 /-- Writes beyond the cap block; with space, exactly `min(len, space)` bytes are accepted (for a
@@ -146,7 +146,7 @@ theorem write_blocks (sendCap : Nat) (t : Tcb) (buf : List Nat)
     simp [this]
 
 example : ∃ t : Tcb, t.abortErr = none ∧ t.wrClosed = false ∧ t.state = .established ∧ t.sendBuf.length ≥ 2 :=
-  ⟨{ state := .established, peer := ⟨.host 1 false, 9⟩, sndNxt := 1, sndUna := 1, sndWnd := 9, rcvNxt := 5,
+  ⟨{ state := .established, peer := ⟨.host 1 false, 9⟩, sndNxt := 1, sndUna := 1, sndMax := 1, sndWnd := 9, rcvNxt := 5,
      sendBuf := [7, 8] }, rfl, rfl, rfl, by decide⟩
 
 /-- The receiver accepts at most the free room below its cap, and only the segment that lands
